@@ -15,8 +15,9 @@ from collections import Counter, deque
 ID = "C19"; MODEL = "topo"; IMPL = "topo"
 COQ_PROP = "Properties/C19.v"; COQ_DIRS = ["Common", "Topo"]
 COQ_MODULE = "Topo.Model"; RUN_FN = "run"
-THEOREMS = ["C19_global_view_exact", "C19_spanned_exact", "C19_connected_iff", "C19_bidirectional_iff",
-            "C19_filter_exact", "C19_first_hop_of_shortest_path"]
+THEOREMS = ["C19_global_view_exact", "C19_from_modules_exact", "C19_spanned_exact", "C19_views_wellformed",
+            "C19_connected_iff", "C19_bidirectional_iff", "C19_filter_exact", "C19_filter_nodes_view",
+            "C19_filter_edges_exact", "C19_first_hop_of_shortest_path", "C19_script_worlds"]
 QUICK_N = 4000; THOROUGH_N = 150000
 CLAIM = dict(
     text="Machine-checked (Coq 8.16, axiom-free) for a function-by-function model of topology.rs as it is now (both work lists FIFO): for EVERY gate graph whose chains stay within the supported 16 hops - trees, stars, rings, multi-edges, self-loops, disconnected parts, transit gates anywhere - the global view has one node per module in module order and, per module, exactly one edge per endpoint gate in gate order, labelled with that gate and the far gate of its chain and leading to the node of the far gate's owner (from_modules on any duplicate-free module list: the same, restricted to chains ending inside the list); the view spanned from ANY root terminates, contains exactly the modules reachable from the root, each once, root first, with the same exact edges - proved via the invariant that every index handed to a pending module is its position in nodes++pending; connected() is true iff every node reaches every node (the recursive visit is a DFS whose depth is bounded by the node count); bidirectional() is true iff every edge u->v is answered by an edge v->u; filter_nodes keeps exactly the selected nodes in order and exactly the edges among them, re-indexed to the same modules (so a filtered exact view is the exact view of the kept modules); filter_edges keeps exactly the selected edges; dijkstra never panics for a source that is a node, terminates, and maps every reachable node other than the source to an edge leaving the source that starts a walk no walk undercuts (BFS layering invariant with lazy deletion), and maps neither the source nor unreachable nodes. Refuted by evaluation for the pinned code: LIFO dijkstra on the triangle, LIFO spanned on a root with two neighbours. The model is tied to des by differential runs of the extracted model against the real Sim/Gate/Topology API on generated gate graphs (including chains of 17..22 hops, where the model reproduces the 16-hop cut-off) and by an independent monitor that recomputes node sets, edge multisets, reachability and BFS distances from the wiring the script declares.",
